@@ -10,7 +10,7 @@ for d in /verif/selftest/${1}*/; do
   prop=$(python3 -c "import json;print(json.load(open('$d/meta.json'))['property'])")
   expect=$(python3 -c "import json;print(json.load(open('$d/meta.json'))['expect'])")
   git apply $d/patch.diff || { echo "$name: PATCH DOES NOT APPLY"; fail=$((fail+1)); continue; }
-  out=$(/verif/govc/bin/govc check -p $prop -tier quick 2>&1); rc=$?
+  out=$(VERIF_EVIDENCE_DIR=/tmp/verif-selftest-evidence /verif/govc/bin/govc check -p $prop -tier quick 2>&1); rc=$?
   git checkout -- . ; git clean -fdq -- . >/dev/null 2>&1
   if [ "$expect" = "violation" ]; then
     if [ $rc -eq 1 ] && echo "$out" | grep -q "^VIOLATION property=$prop"; then
